@@ -23,5 +23,6 @@ CONSTANTS
   UseTCP = FALSE
   ChanUnderLock = FALSE
   AckChanCheck = TRUE
+  Urgent = FALSE
 INVARIANTS ObsQuiet
 CHECK_DEADLOCK FALSE
